@@ -66,7 +66,7 @@ func (oas OffsetAndSizeAndSlot) Bytes() []byte {
 
 // FromBytes parses the offset and size from a byte slice.
 func (oas *OffsetAndSizeAndSlot) FromBytes(buf []byte) error {
-	if len(buf) > binary.MaxVarintLen64*3 {
+	if len(buf) > binary.MaxVarintLen64*3+1 { // three uvarints plus the flags byte
 		return errors.New("invalid byte slice length")
 	}
 	var n int
